@@ -40,6 +40,8 @@ def child_env(extra: dict | None = None) -> dict:
     env["PYTHONPATH"] = os.pathsep.join(pp)
     env.setdefault("PYTHONHASHSEED", "0")
     env["PYTHONDONTWRITEBYTECODE"] = "1"
+    for v in ("OMP_NUM_THREADS", "OPENBLAS_NUM_THREADS", "MKL_NUM_THREADS", "NUMEXPR_NUM_THREADS"):
+        env.setdefault(v, "1")
     if extra:
         env.update({k: str(v) for k, v in extra.items()})
     return env
